@@ -73,7 +73,11 @@ TamperClasses(tr) ==
 \* then), its last session has just been removed and the record is still cached, session-less; "busy" = the
 \* record is cached with another live session.  A new session needs the CURRENT authorisation in all three.
 Authorised(us) == us \in {"bypass", "admin", "dbok"}
-Caches == {"none", "idle", "busy"}
+Caches == {"none", "idle", "busy", "same"}
+\* "same" = a live session of this very (UID, session id) is registered: the connection JOINS it.  Joining is served
+\* from the cached record; the authorisation of a live session is withdrawn at the usage-upload tick that follows the
+\* revocation (env.tick = such a tick has happened since).  Everything else about the packet is checked as for a
+\* fresh session: key, integrity, window, proxy method.
 
 \* ---- server configuration.  Who is authorised without a database is exactly the configured set: the BypassUID
 \* entries and, if one is configured, the AdminUID.  conf = [admin: an AdminUID is configured, nb: number of BypassUID
@@ -88,7 +92,7 @@ Probes  == {"zero",      \* 16 zero bytes (what an absent / empty UID pads to)
             "random"}    \* an unlisted UID
 ProbeExists(cf, pr) == ((pr \in {"bypass", "variant"}) => cf.nb > 0) /\ (pr = "admin" => cf.admin)
 ProbeState(cf, pr)  == IF pr = "bypass" THEN "bypass" ELSE IF pr = "admin" THEN "admin" ELSE "unknown"
-ConfEnvs == {[ustate |-> ProbeState(x[1], x[2]), off |-> 0, rightKey |-> TRUE, cache |-> "none", conf |-> x[1], probe |-> x[2]] :
+ConfEnvs == {[ustate |-> ProbeState(x[1], x[2]), off |-> 0, rightKey |-> TRUE, cache |-> "none", conf |-> x[1], probe |-> x[2], tick |-> FALSE] :
                x \in {y \in Confs \X Probes : ProbeExists(y[1], y[2])}}
 
 -----------------------------------------------------------------------------
@@ -148,7 +152,12 @@ Apply(p, c) ==
 \* A packet whose framing / encoding / unrelated bytes were touched may be refused by the parser, may be
 \* read with the authentication fields at other positions ("garbled"), or may be read as before.  The
 \* statement leaves this open, so does the spec.
-ParseChoices(p) == IF p.lenok /\ p.otherok /\ p.b64ok THEN {"same"} ELSE {"same", "garbled", "fail"}
+\* "joincached": read as "same", and the user is taken from the cached record of its live session without asking
+\* the database - what the code does for a join; allowed until the next upload tick.
+ParseChoices(p) ==
+  (IF p.lenok /\ p.otherok /\ p.b64ok THEN {"same"} ELSE {"same", "garbled", "fail"})
+  \cup (IF env.cache = "same" /\ ~Authorised(env.ustate) /\ (~env.tick \/ "IdleSkippedInUpload" \in Dev)
+          THEN {"joincached"} ELSE {})
 
 ServerSecret(p) == IF p.point = "z" THEN ZeroSecret ELSE DH("s", Pub(p.point))
 
@@ -156,7 +165,7 @@ ServerSecret(p) == IF p.point = "z" THEN ZeroSecret ELSE DH("s", Pub(p.point))
 PointOK(p) == p.point # "z" \/ "LowOrderAccepted" \in Dev
 
 OpenHello(p, choice) ==
-  LET intact == choice = "same" /\ p.f1.ok /\ p.f2.ok
+  LET intact == choice \in {"same", "joincached"} /\ p.f1.ok /\ p.f2.ok
       match  == p.f1.blk.key = ServerSecret(p) /\ p.f1.blk.nonce = p.n12
   IN  IF choice # "fail" /\ PointOK(p) /\ ((intact /\ match) \/ (intact /\ "IgnoreDecryptError" \in Dev))
         THEN [ok |-> TRUE, pt |-> p.f1.blk.pt]
@@ -203,8 +212,9 @@ Outcome(p, choice) ==
         reply == [present |-> TRUE, blk |-> Seal(ServerSecret(p), "rn", "K")]
         admin == us = "admin" /\ (info.sid = "zero" \/ "AdminNoSid" \in Dev)
     IN IF admin THEN [verdict |-> "admin", info |-> info, key |-> "K", reply |-> reply]
-       ELSE IF ~info.method.served /\ "SkipMethodCheck" \notin Dev THEN Redirect
-       ELSE IF ~Authorised(us) /\ "SkipUidCheck" \notin Dev
+       ELSE IF ~info.method.served /\ "SkipMethodCheck" \notin Dev
+               /\ ~(env.cache = "same" /\ "MethodCheckOnOpenOnly" \in Dev) THEN Redirect
+       ELSE IF ~Authorised(us) /\ "SkipUidCheck" \notin Dev /\ choice # "joincached"
                /\ ~(env.cache = "idle" /\ "SkipRecheckSessionless" \in Dev) THEN Redirect
        ELSE [verdict |-> "accept", info |-> info, key |-> "K", reply |-> reply]
 
@@ -238,17 +248,23 @@ Configs ==
 
 Envs ==
   IF Scope = "agree"
-    THEN [ustate : {"bypass", "dbok", "admin"}, off : Offsets, rightKey : {TRUE}, cache : {"none"}, conf : {StdConf}, probe : {"std"}]
+    THEN [ustate : {"bypass", "dbok", "admin"}, off : Offsets, rightKey : {TRUE}, cache : {"none"}, conf : {StdConf}, probe : {"std"}, tick : {FALSE}]
   ELSE IF Scope = "sound"
-    THEN [ustate : UStates, off : Offsets, rightKey : BOOLEAN, cache : {"none"}, conf : {StdConf}, probe : {"std"}]
+    THEN [ustate : UStates, off : Offsets, rightKey : BOOLEAN, cache : {"none"}, conf : {StdConf}, probe : {"std"}, tick : {FALSE}]
          \cup [ustate : {"dbok", "nocredit", "expired", "unknown"}, off : {0}, rightKey : {TRUE}, cache : {"idle", "busy"},
-                conf : {StdConf}, probe : {"std"}]
-         \cup [ustate : {"bypass", "dbok", "admin"}, off : FarOffsets, rightKey : {TRUE}, cache : {"none"}, conf : {StdConf}, probe : {"std"}]
+                conf : {StdConf}, probe : {"std"}, tick : {FALSE}]
+         \cup [ustate : {"nocredit", "expired", "unknown"}, off : {0}, rightKey : {TRUE}, cache : {"busy", "same"},
+                conf : {StdConf}, probe : {"std"}, tick : {TRUE}]
+         \cup [ustate : {"bypass", "dbok", "nocredit", "expired", "unknown"}, off : {0, W, 0 - W - 1}, rightKey : BOOLEAN,
+                cache : {"same"}, conf : {StdConf}, probe : {"std"}, tick : {FALSE}]
+         \cup [ustate : {"bypass", "dbok", "admin"}, off : FarOffsets, rightKey : {TRUE}, cache : {"none"}, conf : {StdConf}, probe : {"std"}, tick : {FALSE}]
          \cup ConfEnvs
   ELSE [ustate : {"bypass", "admin", "unknown"}, off : {0, W, W + 1, 293 * Year}, rightKey : BOOLEAN, cache : {"none"},
-        conf : {StdConf}, probe : {"std"}]
-       \cup [ustate : {"unknown"}, off : {0}, rightKey : {TRUE}, cache : {"idle"}, conf : {StdConf}, probe : {"std"}]
+        conf : {StdConf}, probe : {"std"}, tick : {FALSE}]
+       \cup [ustate : {"unknown"}, off : {0}, rightKey : {TRUE}, cache : {"idle"}, conf : {StdConf}, probe : {"std"}, tick : {FALSE}]
        \cup {e \in ConfEnvs : e.probe = "zero"}
+       \cup [ustate : {"unknown"}, off : {0}, rightKey : {TRUE}, cache : {"same"}, conf : {StdConf}, probe : {"std"}, tick : {TRUE}]
+       \cup [ustate : {"bypass"}, off : {0}, rightKey : {TRUE}, cache : {"same"}, conf : {StdConf}, probe : {"std"}, tick : {FALSE}]
 
 Compatible(c, e) ==
   Scope = "agree" =>
@@ -277,7 +293,7 @@ Tamper(c) ==
   /\ phase = "wire"
   /\ Cardinality(tampers) < MaxTamper
   /\ c \in TamperClasses(cfg.tr) \ tampers
-  /\ env.cache = "none" /\ env.probe = "std"   \* histories, configurations and far-away stamps are explored
+  /\ env.cache \in {"none", "same"} /\ env.probe = "std"   \* histories, configurations and far-away stamps are explored
   /\ env.off \in (0 - W - 1)..(W + 1)          \* on untouched packets
   /\ (Scope \in {"neg", "neg7"} => c = "loworder")        \* the vacuity space needs this one class only
   /\ pkt' = Apply(pkt, c)
@@ -300,7 +316,7 @@ ClientFinish ==
 Next ==
   \/ ClientSend
   \/ \E c \in {"randsig", "nonce", "bit255", "blockA", "blockB", "len", "b64", "other", "loworder"} : Tamper(c)
-  \/ \E ch \in {"same", "garbled", "fail"} : ServerDecide(ch)
+  \/ \E ch \in {"same", "garbled", "fail", "joincached"} : ServerDecide(ch)
   \/ ClientFinish
 
 Spec == Init /\ [][Next]_hvars
@@ -337,7 +353,7 @@ Soundness ==
     /\ SealedToS
     /\ BlockUnmodified
     /\ StrictWindow
-    /\ Authorised(env.ustate)
+    /\ (Authorised(env.ustate) \/ (env.cache = "same" /\ ~env.tick))   \* a join: re-authorised at the next upload tick
     /\ (srv.verdict = "accept" => cfg.served)
     /\ srv.info = CfgInfo(cfg)
 
@@ -352,7 +368,7 @@ AdminReach ==
 TypeOK ==
   /\ phase \in {"start", "wire", "decided", "done"}
   /\ tampers \subseteq {"randsig", "nonce", "bit255", "blockA", "blockB", "len", "b64", "other", "loworder"}
-  /\ env.cache \in Caches
+  /\ env.cache \in Caches /\ env.tick \in BOOLEAN
   /\ env.conf \in Confs /\ env.probe \in Probes \cup {"std"}
   /\ Cardinality(tampers) <= MaxTamper
   /\ srv.verdict \in {"accept", "admin", "redirect"}
